@@ -354,10 +354,11 @@ def starts(tier: str) -> List[Tuple[str, Any, Dict[int, Any]]]:
         roles = slot_roles(sk)
         if sk_size(sk) < 3:
             continue
-        for variant in ({"coef": 2, "exp": 2, "fact": 3}, {"coef": -3, "exp": 0, "fact": 0}):
+        for variant in ({"coef": 2, "exp": 2, "fact": 3}, {"coef": -3, "exp": 0, "fact": 0}, {"coef": 0.00003, "exp": 2, "fact": 3}):
             out.append((sk_str(sk), sk, {s: variant[r] for s, r in roles.items()}))
     extra = ["(x * y) * (b + c)", "2x * y + 3x", "2x * y", "4x + (2x + y)", "5 + 3x + y", "3x = 6", "2 * 3x = 12", "x - (y + 3 + z) = 2",
-             "x + 2 + y = 3", "(z + 3) * (x + 2y)", "4 / y * z", "7 - 1.5^x", "x / (y / 2) + 1", "4x^2 + 2x^2 + x", "x^2 * x^3 * x"]
+             "x + 2 + y = 3", "(z + 3) * (x + 2y)", "4 / y * z", "7 - 1.5^x", "x / (y / 2) + 1", "4x^2 + 2x^2 + x", "x^2 * x^3 * x",
+             "(1 / 40000 / 50000) * 40000 * 50000 + x", "x * (3 / 60000 / 60000)", "0.00002 * 0.00003 + x", "y = x / (1 / 200000 / 300000)"]
     from ..rulekit import literal_values, to_skel
 
     for text in extra:
